@@ -419,7 +419,8 @@ def c06_streams(tier, rng):
             StreamSet("scale", "asan", scale_cases(tier, rng, scale_ops_persist, phases=("loaded", "generic")), timeout=600),
             StreamSet("reload-every-size", "asan", sweep_cases(tier, rng), timeout=900),
             StreamSet("rpdac-image", "asan", [c for c in rpdac_cases(tier, rng, 30 if tier == "thorough" else 10) if c[2] == "RPDAC"],
-                      phase2=rpdac_phase2, timeout=60)]
+                      phase2=rpdac_phase2, timeout=60),
+            StreamSet("rpfc-layer", "asan", rpfc_cases(tier, rng, 24 if tier == "thorough" else 6), phase2=rpfc_phase2, timeout=90)]
 
 
 def c08_ops(kind, pv, S, r):
